@@ -15,7 +15,10 @@ package ctfe
 
 import (
 	"bytes"
+	"crypto"
+	"crypto/ecdsa"
 	"crypto/rand"
+	"crypto/rsa"
 	"crypto/sha256"
 	stdx509 "crypto/x509"
 	"crypto/x509/pkix"
@@ -46,7 +49,7 @@ type c02Abs struct {
 	bc, ca              bool
 	ku                  int
 	pk, entrust         bool
-	notAfter            int64
+	notAfter            time.Time
 	ekus, exts          []int
 	poison              string
 }
@@ -136,9 +139,52 @@ func c02StdSigOK(child, parent *x509.Certificate) bool {
 	ok := false
 	if sc != nil && sp != nil {
 		ok = sp.CheckSignature(sc.SignatureAlgorithm, sc.RawTBSCertificate, sc.Signature) == nil
+	} else {
+		ok = c02RawSigOK(child.Raw, parent.Raw) // e.g. duplicate extensions: crypto/x509 refuses to parse
 	}
 	c02SigCache[k] = ok
 	return ok
+}
+
+// c02RawSigOK verifies child's signature under parent's key without parsing either certificate with crypto/x509:
+// TBS, algorithm and signature are cut out with the harness' own walker, the key is read from the parent's SPKI.
+func c02RawSigOK(child, parent []byte) bool {
+	outer, _, ok := c01Read(child)
+	if !ok {
+		return false
+	}
+	parts, ok := c01Children(outer.val)
+	if !ok || len(parts) != 3 || len(parts[2].val) < 1 {
+		return false
+	}
+	pp, ok := c01CertParts(parent)
+	if !ok {
+		return false
+	}
+	pub, err := stdx509.ParsePKIXPublicKey(pp.spki)
+	if err != nil {
+		return false
+	}
+	alg, sig := parts[1].full, parts[2].val[1:]
+	var h crypto.Hash
+	switch {
+	case bytes.Contains(alg, []byte{0x2a, 0x86, 0x48, 0x86, 0xf7, 0x0d, 0x01, 0x01, 0x0b}), bytes.Contains(alg, []byte{0x2a, 0x86, 0x48, 0xce, 0x3d, 0x04, 0x03, 0x02}):
+		h = crypto.SHA256
+	case bytes.Contains(alg, []byte{0x2a, 0x86, 0x48, 0xce, 0x3d, 0x04, 0x03, 0x03}):
+		h = crypto.SHA384
+	default:
+		return false
+	}
+	hh := h.New()
+	hh.Write(parts[0].full)
+	d := hh.Sum(nil)
+	switch k := pub.(type) {
+	case *ecdsa.PublicKey:
+		return ecdsa.VerifyASN1(k, d, sig)
+	case *rsa.PublicKey:
+		return rsa.VerifyPKCS1v15(k, h, d, sig) == nil
+	}
+	return false
 }
 
 func (k *c02Case) add(c *x509.Certificate) int {
@@ -150,7 +196,7 @@ func (k *c02Case) add(c *x509.Certificate) int {
 	k.certs = append(k.certs, c)
 	a := c02Abs{subj: c02Intern(k.names, string(c.RawSubject)), iss: c02Intern(k.names, string(c.RawIssuer)), aki: -1, ski: -1,
 		ver: c.Version, bc: c.BasicConstraintsValid, ca: c.IsCA, ku: int(c.KeyUsage),
-		pk: c.PublicKeyAlgorithm != x509.UnknownPublicKeyAlgorithm, notAfter: c.NotAfter.UnixNano(), poison: "a",
+		pk: c.PublicKeyAlgorithm != x509.UnknownPublicKeyAlgorithm, notAfter: c.NotAfter, poison: "a",
 		entrust: len(c02EntrustSPKI) > 0 && bytes.Equal(c.RawSubjectPublicKeyInfo, c02EntrustSPKI)}
 	if len(c.AuthorityKeyId) > 0 {
 		a.aki = c02Intern(k.kids, string(c.AuthorityKeyId))
@@ -166,8 +212,10 @@ func (k *c02Case) add(c *x509.Certificate) int {
 	}
 	for _, e := range c.Extensions {
 		if e.Id.String() == "1.3.6.1.4.1.11129.2.4.3" {
-			a.poison = "p" + verifkit.B(e.Critical) + verifkit.B(bytes.Equal(e.Value, []byte{5, 0}))
-			break
+			if a.poison == "a" {
+				a.poison = ""
+			}
+			a.poison += "p" + verifkit.B(e.Critical) + verifkit.B(bytes.Equal(e.Value, []byte{5, 0}))
 		}
 	}
 	k.abs = append(k.abs, a)
@@ -211,11 +259,18 @@ func optI(v int) string {
 	return fmt.Sprint(v)
 }
 
+// nanos renders an instant as decimal nanoseconds since the epoch without the int64 limits of UnixNano
+// (9999-12-31, the "no well-defined expiry" date, does not fit int64 nanoseconds).
+func nanos(t time.Time) string {
+	n := new(big.Int).Mul(big.NewInt(t.Unix()), big.NewInt(1000000000))
+	return n.Add(n, big.NewInt(int64(t.Nanosecond()))).String()
+}
+
 func optT(t *time.Time) string {
 	if t == nil {
 		return "-"
 	}
-	return fmt.Sprint(t.UnixNano())
+	return nanos(*t)
 }
 
 func ints(v []int) string {
@@ -231,8 +286,8 @@ func (k *c02Case) line(op string, o c02Opts, now time.Time, endpoint int) string
 	var sb strings.Builder
 	fmt.Fprintf(&sb, "%s U %d", op, len(k.abs))
 	for _, a := range k.abs {
-		fmt.Fprintf(&sb, " %d %d %s %s %d %s %s %d %s %s %d %s %s %s", a.subj, a.iss, optI(a.aki), optI(a.ski), a.ver, verifkit.B(a.bc), verifkit.B(a.ca),
-			a.ku, verifkit.B(a.pk), verifkit.B(a.entrust), a.notAfter, ints(a.ekus), ints(a.exts), a.poison)
+		fmt.Fprintf(&sb, " %d %d %s %s %d %s %s %d %s %s %s %s %s %s", a.subj, a.iss, optI(a.aki), optI(a.ski), a.ver, verifkit.B(a.bc), verifkit.B(a.ca),
+			a.ku, verifkit.B(a.pk), verifkit.B(a.entrust), nanos(a.notAfter), ints(a.ekus), ints(a.exts), a.poison)
 	}
 	fmt.Fprintf(&sb, " R %s C %d", ints(k.roots), len(k.chain))
 	for _, c := range k.chain {
@@ -258,7 +313,7 @@ func (k *c02Case) line(op string, o c02Opts, now time.Time, endpoint int) string
 	for _, e := range o.ekus {
 		eku = append(eku, int(e))
 	}
-	fmt.Fprintf(&sb, " O %d %s %s %s %s %s %s %s E %d", now.UnixNano(), optT(o.start), optT(o.limit), verifkit.B(o.onlyCA), verifkit.B(o.rejExp), verifkit.B(o.rejUnexp),
+	fmt.Fprintf(&sb, " O %s %s %s %s %s %s %s %s E %d", nanos(now), optT(o.start), optT(o.limit), verifkit.B(o.onlyCA), verifkit.B(o.rejExp), verifkit.B(o.rejUnexp),
 		ints(ext), ints(eku), endpoint)
 	return sb.String()
 }
@@ -346,16 +401,16 @@ func (k *c02Case) validPath(p []int) string {
 // leafOK: the configured filters, from the property text.
 func c02LeafOK(a c02Abs, o c02Opts, now time.Time, oidIdx func(string) int) bool {
 	t := a.notAfter
-	if o.start != nil && !(o.start.UnixNano() <= t) {
+	if o.start != nil && !(o.start.Equal(t) || o.start.Before(t)) {
 		return false
 	}
-	if o.limit != nil && !(t < o.limit.UnixNano()) {
+	if o.limit != nil && !t.Before(*o.limit) {
 		return false
 	}
 	if o.onlyCA && !a.ca {
 		return false
 	}
-	expired := now.UnixNano() > t
+	expired := now.After(t)
 	if (o.rejExp && expired) || (o.rejUnexp && !expired) {
 		return false
 	}
@@ -428,6 +483,27 @@ func (k *c02Case) admissibleMode(strict bool) bool {
 	return false
 }
 
+// fpp: findPotentialParents on the abstract view (key identifiers first, names only if that finds nothing).
+func (k *c02Case) fpp(pool []int, c int) []int {
+	a := k.abs[c]
+	var out []int
+	if a.aki >= 0 {
+		for _, p := range pool {
+			if k.abs[p].ski == a.aki {
+				out = append(out, p)
+			}
+		}
+	}
+	if len(out) == 0 {
+		for _, p := range pool {
+			if k.abs[p].subj == a.iss {
+				out = append(out, p)
+			}
+		}
+	}
+	return out
+}
+
 // sideConditions names the first hypothesis of `C02.admit_complete_partial` the case violates ("" = none).
 func (k *c02Case) sideConditions() string {
 	n := len(k.chain)
@@ -441,32 +517,34 @@ func (k *c02Case) sideConditions() string {
 	if n > 1 && k.isRoot(k.chain[0]) {
 		return "leaf-is-trusted-with-extra-certificates"
 	}
-	inPool := map[int]bool{}
-	for _, r := range k.roots {
-		inPool[r] = true
-	}
-	for _, c := range k.chain[1:] {
-		inPool[c] = true
-	}
-	subj := map[int]int{}
-	for i := range inPool {
-		if j, ok := subj[k.abs[i].subj]; ok && j != i {
-			return "same-subject-certificates"
-		}
-		subj[k.abs[i].subj] = i
-	}
-	for _, c := range k.chain {
-		a := k.abs[c]
-		if a.aki < 0 {
-			continue
-		}
-		for i := range inPool {
-			if k.abs[i].ski == a.aki && k.abs[i].subj != a.iss {
-				return "aki-points-elsewhere"
+	// akiFindsIssuer: in either pool, a member carrying the issuer's name is not hidden by the AKI
+	for _, pool := range [][]int{k.roots, k.chain[1:]} {
+		for _, c := range k.chain {
+			a := k.abs[c]
+			if a.aki < 0 {
+				continue
+			}
+			matches := false
+			for _, y := range pool {
+				if k.abs[y].ski == a.aki {
+					matches = true
+				}
+			}
+			if !matches {
+				continue
+			}
+			for _, x := range pool {
+				if k.abs[x].subj == a.iss && k.abs[x].ski != a.aki {
+					return "aki-hides-issuer"
+				}
 			}
 		}
 	}
-	if 2*n+2 > 100 {
+	cost := 0
+	for _, c := range k.chain {
+		cost += len(k.fpp(k.roots, c)) + 1
+	}
+	if cost > 100 {
 		return "signature-budget"
 	}
 	return ""
@@ -482,8 +560,8 @@ type c02Env struct {
 }
 
 func c02Key(k *c02Case, labels []string, o c02Opts, endpoint int) string {
-	return fmt.Sprintf("chain=[%s] pool=%d opts={now=%v start=%v limit=%v ca=%v exp=%v unexp=%v ext=%v eku=%v} ep=%d", strings.Join(labels, ","), len(k.roots),
-		o.now.UnixNano(), optT(o.start), optT(o.limit), o.onlyCA, o.rejExp, o.rejUnexp, o.rejExt, o.ekus, endpoint)
+	return fmt.Sprintf("chain=[%s] pool=%d opts={now=%s start=%v limit=%v ca=%v exp=%v unexp=%v ext=%v eku=%v} ep=%d", strings.Join(labels, ","), len(k.roots),
+		nanos(o.now), optT(o.start), optT(o.limit), o.onlyCA, o.rejExp, o.rejUnexp, o.rejExt, o.ekus, endpoint)
 }
 
 // eval runs one (case, options, endpoint) through the real code, writes the trace line and applies the oracle.
@@ -535,12 +613,21 @@ func (e *c02Env) eval(k *c02Case, labels []string, o c02Opts, endpoint int) bool
 		leaf = k.chain[0]
 	}
 	filters := leaf >= 0 && c02LeafOK(k.abs[leaf], o, now, func(s string) int { return c02Intern(k.oids, s) })
-	kindOK, poisonBad := true, false
+	// the property: a precertificate has a critical poison extension with a NULL value; ANY malformed poison extension is rejected
+	kindOK, poisonBad, laterBad := true, false, false
 	if leaf >= 0 {
 		pz := k.abs[leaf].poison
-		poisonBad = pz != "a" && pz != "p11"
+		isPre := pz != "a"
+		for i := 0; pz != "a" && i+3 <= len(pz); i += 3 {
+			if pz[i:i+3] != "p11" {
+				poisonBad, isPre = true, false
+				if i > 0 && !strings.Contains(pz[:i], "p0") && !strings.Contains(pz[:i], "p10") {
+					laterBad = true // everything before it is well-formed: the code stops at the first
+				}
+			}
+		}
 		if endpoint != 0 {
-			kindOK = !poisonBad && (pz == "p11") == (endpoint == 2)
+			kindOK = !poisonBad && isPre == (endpoint == 2)
 		}
 	}
 	adm := k.admissible()
@@ -557,7 +644,9 @@ func (e *c02Env) eval(k *c02Case, labels []string, o c02Opts, endpoint int) bool
 		if !filters {
 			out.Fail(key, "admitted although a configured leaf filter does not hold")
 		}
-		if !kindOK {
+		if !kindOK && laterBad && endpoint == 2 {
+			out.Fail("poison: a malformed poison extension after a well-formed one is ignored "+key, "admitted as a precertificate")
+		} else if !kindOK {
 			out.Fail(key, "admitted although the leaf kind does not match the endpoint / the poison extension is malformed")
 		}
 		if !adm {
@@ -576,13 +665,16 @@ func (e *c02Env) eval(k *c02Case, labels []string, o c02Opts, endpoint int) bool
 				if sc == "" {
 					sc = "issuing-root-is-submitted"
 				}
-				out.Count("obs:valid-path-rejected:" + sc) // where the code's search is incomplete by construction
+				// where the code's search is incomplete by construction: a deviation from "admitted if and only if", one
+				// known finding per class
+				out.Fail("valid-path-rejected:"+sc+" "+key, "a valid in-order chain to the trusted pool was rejected: "+err.Error())
+				out.Count("class:valid-path-rejected:" + sc)
 			} else {
 				out.Fail(key, "rejected although the chain is a valid linear path to the pool, the filters hold and every side condition of admit_complete_partial holds: "+err.Error())
 			}
 		}
 	}
-	if endpoint != 0 && poisonBad && err == nil {
+	if endpoint != 0 && poisonBad && err == nil && !(laterBad && endpoint == 2) {
 		out.Fail(key, "malformed poison extension admitted")
 	}
 	return err == nil
@@ -682,7 +774,8 @@ var c02EKUChoices = [][]stdx509.ExtKeyUsage{nil, {stdx509.ExtKeyUsageServerAuth}
 
 var c02NotAfters = []time.Time{time.Date(2031, 3, 4, 5, 6, 7, 0, time.UTC), time.Date(2029, 12, 31, 23, 59, 59, 0, time.UTC),
 	time.Date(2030, 1, 1, 0, 0, 0, 0, time.UTC), time.Date(2049, 12, 31, 23, 59, 59, 0, time.UTC), time.Date(2050, 1, 1, 0, 0, 0, 0, time.UTC),
-	time.Date(2022, 2, 2, 2, 2, 2, 0, time.UTC)}
+	time.Date(2022, 2, 2, 2, 2, 2, 0, time.UTC),
+	time.Date(9999, 12, 31, 23, 59, 59, 0, time.UTC)} // the last one: "no well-defined expiry" (RFC 5280), beyond int64 nanoseconds
 
 func c02Leaf(r *verifkit.Rand, w *vWorld, tag string) *vCert {
 	keys := vKeys()
@@ -709,6 +802,9 @@ func c02Leaf(r *verifkit.Rand, w *vWorld, tag string) *vCert {
 		sp.poison = vPoisonOK
 	default:
 		sp.poison = vPoisonNonCritical + r.Intn(vPoisonKinds-vPoisonNonCritical)
+	}
+	if sp.poison != vPoisonNone && r.Intn(6) == 0 {
+		sp.poison2 = vPoisonOK + r.Intn(vPoisonKinds-vPoisonOK) // a second poison extension
 	}
 	if r.Intn(7) == 0 {
 		sp.isCA, sp.keyUsage = true, vCAUsage
@@ -1042,6 +1138,7 @@ func TestVerifC02(t *testing.T) {
 	}
 	c02Budget(e)
 	c02PassThrough(e)
+	c02Incomplete(e)
 	c02PoisonFixed(e)
 	c02Fixed(e)
 	c02Diamond(e)
@@ -1173,6 +1270,80 @@ func c02PassThrough(e *c02Env) {
 		l3 := vIssue(vSpec{cn: tag + "L3", key: keys[r.Intn(len(keys))], issuer: i, keyUsage: stdx509.KeyUsageDigitalSignature})
 		for _, c := range [][]*vCert{{l3, i}, {l3, i, r2x}, {l3, i, r2x, r1}} {
 			run("cross-certificate", []*vCert{r1, r2x}, c)
+		}
+	}
+}
+
+// c02Incomplete: one minimal hierarchy per class of valid in-order chains the code rejects (the "if" half of the
+// property fails there; each class is a known finding, see known_findings.d/C02.json and C02.admit_complete_partial).
+func c02Incomplete(e *c02Env) {
+	keys := vKeys()
+	neutral := c02Opts{now: time.Date(2030, 1, 1, 0, 0, 0, 0, time.UTC)}
+	ca := func(cn string, issuer *vCert, k int) *vCert {
+		return vIssue(vSpec{cn: cn, key: keys[k], issuer: issuer, isCA: true, keyUsage: vCAUsage})
+	}
+	leafUnder := func(cn string, issuer *vCert) *vCert {
+		return vIssue(vSpec{cn: cn, key: keys[11], issuer: issuer, keyUsage: stdx509.KeyUsageDigitalSignature})
+	}
+	run := func(class string, pool, chain []*vCert) {
+		var ders [][]byte
+		var labels []string
+		for _, c := range chain {
+			ders = append(ders, c.der)
+			labels = append(labels, c.label)
+		}
+		k := c02NewCase(pool, ders)
+		ok := e.eval(k, append([]string{"minimal"}, labels...), neutral, 1)
+		e.out.Count(fmt.Sprintf("class:minimal-%s-admitted-%v", class, ok))
+		if !k.admissible() {
+			e.out.Fail("minimal hierarchy for "+class, "the harness' hierarchy is not a valid path (generator bug)")
+		}
+	}
+	// AKI-first lookup without fall-back: L is issued by the trusted R, but its authority key identifier is the subject
+	// key identifier of another trusted certificate O: only O is tried
+	{
+		r := ca("inc R", nil, 2)
+		o := vIssue(vSpec{cn: "inc O", key: keys[3], isCA: true, keyUsage: vCAUsage, ski: []byte("ski-of-O")})
+		l := vIssue(vSpec{cn: "inc L aki=O", key: keys[11], issuer: r, keyUsage: stdx509.KeyUsageDigitalSignature, akiMode: vAKICustom, aki: []byte("ski-of-O")})
+		run("aki-hides-issuer", []*vCert{r, o}, []*vCert{l})
+	}
+	// a certificate is never used twice: [L, R, R] with the self-signed trusted R
+	{
+		r := ca("inc R2", nil, 2)
+		l := leafUnder("inc L2", r)
+		run("repeated-certificate", []*vCert{r}, []*vCert{l, r, r})
+	}
+	// Verify answers [[leaf]] at once when the leaf is itself trusted: [T, R] with T and R trusted
+	{
+		r := ca("inc R3", nil, 2)
+		t := ca("inc T3", r, 3)
+		run("leaf-is-trusted-with-extra-certificates", []*vCert{r, t}, []*vCert{t, r})
+	}
+	// an issuance cycle: A is certified by B and B by A; A is trusted; [L, A, B] ends one step below the trusted A,
+	// which is already part of the chain
+	{
+		a0 := ca("inc A", nil, 4)
+		b := ca("inc B", a0, 5)
+		a := vIssue(vSpec{rawSubj: a0.c.RawSubject, cn: "x", key: a0.key, issuer: b, isCA: true, keyUsage: vCAUsage, ski: a0.c.SubjectKeyId})
+		a.label = "inc A (certified by B)"
+		bb := vIssue(vSpec{rawSubj: b.c.RawSubject, cn: "x", key: b.key, issuer: a, isCA: true, keyUsage: vCAUsage, ski: b.c.SubjectKeyId})
+		bb.label = "inc B (certified by A)"
+		l := leafUnder("inc L4", a)
+		run("issuing-root-is-submitted", []*vCert{a}, []*vCert{l, a, bb})
+	}
+	// two poison extensions, the first well-formed, the second not: IsPrecertificate stops at the first
+	{
+		r := ca("inc R5", nil, 2)
+		l := vIssue(vSpec{cn: "inc L5 two poison extensions", key: keys[11], issuer: r, keyUsage: stdx509.KeyUsageDigitalSignature,
+			poison: vPoisonOK, poison2: vPoisonNonCriticalBad})
+		k := c02NewCase([]*vCert{r}, [][]byte{l.der})
+		ok := e.eval(k, []string{"minimal", l.label}, neutral, 2)
+		e.out.Count(fmt.Sprintf("class:minimal-second-poison-ignored-admitted-%v", ok))
+		l2 := vIssue(vSpec{cn: "inc L6 two poison extensions", key: keys[11], issuer: r, keyUsage: stdx509.KeyUsageDigitalSignature,
+			poison: vPoisonNonCriticalBad, poison2: vPoisonOK})
+		k = c02NewCase([]*vCert{r}, [][]byte{l2.der})
+		if e.eval(k, []string{"minimal", l2.label}, neutral, 2) {
+			e.out.Fail("poison: malformed first, well-formed second", "admitted")
 		}
 	}
 }
